@@ -65,7 +65,8 @@ def gen_instance(rng, maxvars):
         thr = Fraction(min(2 * deg, nv), 8)
         mode = rng.choice(["default", "strict"])
         if mode == "default":
-            return {"cls": cls, "inst": inst, "A": None, "B": 1, "strict": False, "default": True}
+            # the default A is a function of B: also with B given and A left out
+            return {"cls": cls, "inst": inst, "A": None, "B": rng.choice([1, 1, 2, 3]), "strict": False, "default": True}
         B = rng.choice([1, 2])
         A = float(thr * B + Fraction(1, 4))
         return {"cls": cls, "inst": inst, "A": A, "B": B, "strict": True, "default": False}
@@ -84,7 +85,7 @@ def gen_instance(rng, maxvars):
         lengths = [rng.randint(1, 2) for _ in range(nj)]
         inst = {"lengths": lengths, "m": m, "log_trick": rng.random() < 0.5}
         mode = rng.choice(["default", "strict"])
-        B = 1 if mode == "default" else rng.choice([1, 2])
+        B = rng.choice([1, 1, 2]) if mode == "default" else rng.choice([1, 2])
         A = None if mode == "default" else B * max(lengths) + 1
         return {"cls": cls, "inst": inst, "A": A, "B": B, "strict": mode == "strict", "default": mode == "default"}
     if cls == "NumberPartitioning":
@@ -160,11 +161,15 @@ def run_case(case, cid, maxvars):
             elif cls == "GraphPartitioning":
                 if case["A"] is not None:
                     kw = {"A": case["A"], "B": case["B"]}
+                elif case["B"] != 1:
+                    kw = {"B": case["B"]}
                 form = pure.twice(lambda: prob.to_quso(**kw))
                 spinform = True
             else:
                 if case["A"] is not None:
                     kw = {"A": case["A"], "B": case["B"]}
+                elif case["B"] != 1 and cls == "JobSequencing":
+                    kw = {"B": case["B"]}
                 form = pure.twice(lambda: prob.to_qubo(**kw))
                 spinform = False
             terms = [(tuple(k), v) for k, v in dict.items(form)]
@@ -244,6 +249,12 @@ def run_case(case, cid, maxvars):
                             outs.append(decode_to_on(dec, spin))
                         valids.append(bool(prob.is_solution_valid(copy.deepcopy(sol), spin)))
                         valids.append(bool(prob.is_solution_valid(dec)))
+                        # the spin flag left to the library's detection, where the assignment is unambiguous: a spin assignment
+                        # with a -1 anywhere (ancillas included), any boolean assignment
+                        vals_ = list(sol.values()) if isinstance(sol, dict) else list(sol)
+                        if cls not in ("NumberPartitioning", "AlternatingSectorsChain") and ((spin and -1 in vals_) or not spin):
+                            outs.append(decode_to_on(prob.convert_solution(copy.deepcopy(sol)), spin))
+                            valids.append(bool(prob.is_solution_valid(copy.deepcopy(sol))))
                 same = all(o == outs[0] for o in outs) and all(v == valids[0] for v in valids)
                 tab.append([on, outs[0], valids[0], bool(same)])
             fr = [common.frac(v) for _, v in terms] + [common.frac(case["B"])]
